@@ -221,7 +221,7 @@ def dispatchQuso (L : Obj) : Except Err (Nat × Poly × List Var) :=
   if L.kind = .qusom then do
     let N ← match L.maxIndex with
       | some m => pure (m + 1)
-      | none => throw Err.type            -- `max_index + 1` with `max_index is None`
+      | none => pure 0                    -- `N = 0 if L.max_index is None else L.max_index + 1`
     pure (N, L.terms, List.range N)
   else do
     let L' ← if L.kind = .quso then pure L else Obj.build .quso L.terms
@@ -232,7 +232,7 @@ def dispatchPuso (H : Obj) : Except Err (Nat × Poly × List Var) :=
   if H.kind = .qusom ∨ H.kind = .pusom then do
     let N ← match H.maxIndex with
       | some m => pure (m + 1)
-      | none => throw Err.type
+      | none => pure 0                    -- `N = 0 if H.max_index is None else H.max_index + 1`
     pure (N, H.terms, List.range N)
   else do
     let H' ← if H.kind = .quso ∨ H.kind = .puso ∨ H.kind = .pcso then pure H else Obj.build .puso H.terms
